@@ -19,6 +19,10 @@ package mr
 //@   ensures [delivered-value-returned-even-if-nil] calls(Load) == 1 && ret(Load) == nil && gotOk ==> result1 == nil && result0 == got
 //@   ensures [closed-without-value-is-no-output] calls(Load) == 1 && ret(Load) == nil && !gotOk ==> result1 == ErrReduceNoOutput && result0 == nil
 //@   ensures [deadline] calls(Load) == 0 ==> result1 == context.DeadlineExceeded && result0 == nil && calls(cancel, context.DeadlineExceeded) == 1
+// a panic handed over by the generator / a mapper / the reducer is re-raised only after `output` has been drained:
+// otherwise the reducer's (single, legitimate) result would be met by the write-twice guard of the deferred
+// function and the caller would see that bogus panic instead of the original one
+//@   panic-ensures [output-drained-before-the-panic-is-re-raised] calls(on("recv", panicChan.channel)) == 1 ==> calls(drain) == 1 && before(on("recv", panicChan.channel), drain)
 //@   ensures [two-goroutines] calls("go mapReduceWithPanicChan$4") == 1 && calls("go executeMappers") == 1
 
 // cancel's body: the first error is recorded (nil becomes ErrCancelWithNil), the source is drained, the run finished.
